@@ -613,6 +613,175 @@ def curve_transform(ck, sh, mm, kind, n, axis):
     prove_paths(ck, 'curve-%s-n%d-%s' % (kind, n, axis), fn, goals, replay, max_paths=16, expect_exc=(ValueError,), timeout_ms=20000)
 
 
+# ---------------------------------------------------------------------------------------------
+# (f) order and scope of the transformation options of the program: sort keys, tags, scale last
+# ---------------------------------------------------------------------------------------------
+TW = [('3', (0.0, 0.0, 0.0), (1.5, 0.3, 0.2), 0.002), ('2', (1.5, 0.3, 0.2), (1.7, 1.2, 0.9), 0.004)]
+ROT_A, ROT_B = (0.0, 90.0, 0.0), (30.0, 0.0, 0.0)
+
+# case -> list of (kind, payload, tag or None); keys k1, k2, (k3) and the translation vectors / scale factor are symbolic
+ORDER_CASES = {
+    'rotate+translate': [('rot', ROT_A, None), ('tr', 't', None)],
+    'translate+rotate-tagged': [('tr', 't', 2), ('rot', ROT_A, 2)],
+    'two-translations': [('tr', 't', None), ('tr', 'u', 1)],
+    'two-rotations': [('rot', ROT_A, None), ('rot', ROT_B, None)],
+    'rotate+translate+scale': [('rot', ROT_B, None), ('tr', 't', None), ('scale', 's', None)],
+    'three': [('tr', 't', None), ('rot', ROT_A, 1), ('tr', 'u', None)],
+}
+
+
+def _order_argv(case, keys, vecs, sc):
+    argv = []
+    for n, p1, p2, r in TW:
+        argv += ['-w', ','.join([n] + [repr(v) for v in p1 + p2] + [repr(r)])]
+    argv += ['--excitation-pulse=1']
+    ki = 0
+    for kind, pay, tag in ORDER_CASES[case]:
+        tg = [] if tag is None else [str(tag)]
+        if kind == 'rot':
+            argv.append('--geo-rotate=' + ','.join([keys[ki]] + [repr(a) for a in pay] + tg))
+            ki += 1
+        elif kind == 'tr':
+            argv.append('--geo-translate=' + ','.join([keys[ki]] + list(vecs[pay]) + tg))
+            ki += 1
+        else:
+            argv.append('--geo-scale=' + ','.join([sc] + tg))
+    return argv
+
+
+def _order_reference(case, rotm, keyvals, vec, scv, lt, eq, mul_add):
+    """All admissible results: the transformations sorted by key; equal keys leave the order open (every order of a tie is admissible).
+    Returns [(condition on the keys as a list of (i, rel, j)), [(p1, p2, r) per wire])]."""
+    import itertools as it
+    ops = [(kind, pay, tag) for kind, pay, tag in ORDER_CASES[case] if kind != 'scale']
+    scale = [(kind, pay, tag) for kind, pay, tag in ORDER_CASES[case] if kind == 'scale']
+    out = []
+    for perm in it.permutations(range(len(ops))):
+        pts = [[np.array(p1, dtype=object), np.array(p2, dtype=object), r] for n, p1, p2, r in TW]
+        for oi in perm:
+            kind, pay, tag = ops[oi]
+            for wi, w in enumerate(pts):
+                if tag is not None and tag != wi + 1:
+                    continue
+                for e in (0, 1):
+                    if kind == 'rot':
+                        w[e] = np.array([sum((rotm[pay][i][k] * w[e][k] for k in range(3)), 0.0) for i in range(3)], dtype=object)
+                    else:
+                        w[e] = np.array([w[e][i] + vec[pay][i] for i in range(3)], dtype=object)
+        for kind, pay, tag in scale:
+            for wi, w in enumerate(pts):
+                if tag is not None and tag != wi + 1:
+                    continue
+                w[0], w[1], w[2] = w[0] * scv, w[1] * scv, w[2] * scv
+        cond = [(perm[a], perm[a + 1]) for a in range(len(perm) - 1)]          # key[perm[a]] <= key[perm[a+1]]
+        out.append((cond, pts))
+    return out
+
+
+def transform_order(ck, sh, mm, case):
+    """The real main() on an argument list whose sort keys, translation vectors and scale factor are arbitrary: every wire ends where
+    the transformations, taken in sort-key order (equal keys: any order, but every one of them applied) on the object of their tag
+    or on everything, and the scale factor applied after all of them (radius included), put it."""
+    M = sh.mininec
+    nk = sum(1 for k, p, t in ORDER_CASES[case] if k != 'scale')
+    rots = sorted({p for k, p, t in ORDER_CASES[case] if k == 'rot'})
+
+    def fn():
+        c = symx.ctx()
+        keys = [SR.var('k%d' % (i + 1)) for i in range(nk)]
+        for k in keys:
+            c.assume(z3.And(k.n >= -3, k.n <= 3))
+        vec = {nm: [SR.var(nm + a) for a in 'xyz'] for nm in ('t', 'u')}
+        for v in vec.values():
+            for x in v:
+                c.assume(z3.And(x.n >= -100, x.n <= 100))
+        s = pos('s', 0.01, 100)
+        argv = _order_argv(case, [tokens.exact(k) for k in keys], {nm: [tokens.exact(x) for x in v] for nm, v in vec.items()}, tokens.exact(s))
+        import io, contextlib
+        out, err = io.StringIO(), io.StringIO()
+        class Captured(Exception):
+            pass
+
+        class Holder:
+            pass
+
+        def mininec_stub(f, geo, **kw):
+            # main() has applied every geometry option when it constructs the model: the objects are captured here and the run ends
+            # (segmentation and connection matching on symbolic coordinates are the subject of the other clauses and of C12)
+            h = Holder()
+            h.geo = [g for g in geo]
+            raise Captured(h)
+        real_cls = M.Mininec
+        M.Mininec = mininec_stub
+        try:
+            with symx.object_arrays(), contextlib.redirect_stdout(out), contextlib.redirect_stderr(err):
+                rotm = {p: real_cls.__module__ and M.Rotation_Matrix(np.array(p)).m for p in rots}
+                m = M.main(list(argv), f_err=err, return_mininec=True)
+        except Captured as e:
+            m = e.args[0]
+        finally:
+            M.Mininec = real_cls
+        if not hasattr(m, 'geo'):
+            return dict(inputs=dict(keys=keys, t=vec['t'], u=vec['u'], s=s), refused=(m, out.getvalue() + err.getvalue()))
+        got = [(np.array(w.p1), np.array(w.p2), w.r) for w in m.geo]
+        ref = _order_reference(case, rotm, keys, vec, s, None, None, None)
+        return dict(inputs=dict(keys=keys, t=vec['t'], u=vec['u'], s=s), got=got, ref=ref, keys=keys, has_scale=any(k == 'scale' for k, p, t in ORDER_CASES[case]))
+
+    def near(a, b):
+        # the reference and the code may associate the float products of a rotation differently: 1e-9 m absolute on coordinates
+        # that stay below 1e4 m by the bounds on the inputs
+        d = SR.lift(a) - SR.lift(b)
+        return z3.And((d <= 1e-9).t, (d >= -1e-9).t)
+
+    def goals(o):
+        if 'refused' in o:
+            return [('the argument list is accepted', z3.BoolVal(False))]
+        alts = []
+        for cond, pts in o['ref']:
+            cs = [o['keys'][a].n <= o['keys'][b].n for a, b in cond]
+            for (g1, g2, gr), (r1, r2, rr) in zip(o['got'], pts):
+                cs += [near(a, b) for a, b in zip(list(g1)[:2] + list(g2)[:2], list(r1)[:2] + list(r2)[:2])]
+                # an end closer to height 0 than 1/1000 of the shortest segment is put ON height 0 after segmentation (the tolerance of
+                # C12; also in free space): admitted for the z component, with 0.6 s as upper bound of the segment lengths of the template
+                for a, b in ((g1[2], r1[2]), (g2[2], r2[2])):
+                    a, b = SR.lift(a), SR.lift(b)
+                    lim = o['inputs']['s'] * 0.0006 if o['has_scale'] else SR.lift(0.0006)
+                    cs.append(z3.Or(near(a, b), z3.And(eq_term(a, 0.0), (b < lim).t, (b > -lim).t)))
+                cs.append(eq_term(gr, rr))
+            alts.append(z3.And(*cs))
+        return [('every wire ends where the transformations in sort-key order (scale last) put it', z3.Or(*alts))]
+
+    def replay(c, gn, out):
+        keys = [float(k) for k in c['keys']]
+        vec = dict(t=[float(x) for x in c['t']], u=[float(x) for x in c['u']])
+        s = float(c['s'])
+        argv = _order_argv(case, [repr(k) for k in keys], {nm: [repr(x) for x in v] for nm, v in vec.items()}, repr(s))
+        import io, contextlib
+        o_, e_ = io.StringIO(), io.StringIO()
+        with contextlib.redirect_stdout(o_), contextlib.redirect_stderr(e_):
+            m = mm.main(list(argv), f_err=e_, return_mininec=True)
+        if not hasattr(m, 'geo'):
+            return ('C13:transform-order:%s:refused' % case, 'main(%s) refuses the model: %s' % (' '.join(argv), (o_.getvalue() + e_.getvalue())[:200]),
+                    dict(kind='transform-order', argv=argv))
+        rotm = {p: mm.Rotation_Matrix(np.array(p)).m for p in rots}
+        got = [(np.array(w.p1, dtype=float), np.array(w.p2, dtype=float), float(w.r)) for w in m.geo]
+        for cond, pts in _order_reference(case, rotm, keys, vec, s, None, None, None):
+            if not all(keys[a] <= keys[b] for a, b in cond):
+                continue
+            sc = 1 + max(float(np.abs(np.asarray(p[e], dtype=float)).max()) for p in pts for e in (0, 1))
+            def same(g, p):
+                p = np.asarray(p, dtype=float)
+                if not np.allclose(g[:2], p[:2], atol=1e-9 * sc):
+                    return False
+                return abs(g[2] - p[2]) <= 1e-9 * sc or (g[2] == 0 and abs(p[2]) < 1e-3 * m.min_seglen)
+            if all(same(g[e], p[e]) for g, p in zip(got, pts) for e in (0, 1)) and all(close(g[2], float(p[2]), 1e-12) for g, p in zip(got, pts)):
+                return None
+        return ('C13:transform-order:%s' % case, 'main(%s): wires end at %s, which no sort-key order of the requested transformations (scale last) produces'
+                % (' '.join(argv[5:]), [(list(np.round(g[0], 6)), list(np.round(g[1], 6)), g[2]) for g in got]), dict(kind='transform-order', argv=argv))
+    prove_paths(ck, 'transform-order-%s' % case, fn, goals, replay, max_paths=64, timeout_ms=20000 if ck.tier == 'quick' else 120000)
+    ck.bounds.setdefault('transform_order', []).append(case)
+
+
 def main(args):
     ck = Check('C13', args)
     ck.shadow_stats = symx.load().stats
@@ -630,6 +799,7 @@ def main(args):
         parts += [('taper_mirror', (3,)), ('equal_segments', (1,)), ('equal_segments', (7,)), ('arc', (3,)), ('arc', (5,)),
                   ('helix', (3, 1, 1)), ('helix', (4, -1, 1)), ('helix', (3, 1, -1)), ('transforms', ('x',)), ('transforms', ('z',)),
                   ('transforms', ('xy',))]
+        parts += [('transform_order', (cs,)) for cs in ORDER_CASES]
     else:
         for n in (2, 3, 4, 5):
             for mn, mx in ((False, False), (True, False), (False, True), (True, True)):
@@ -646,6 +816,7 @@ def main(args):
         parts += [('arc', (n,)) for n in (3, 4, 8, 16)]
         parts += [('helix', (n, a, b)) for n in (3, 5, 8) for a in (1, -1) for b in (1, -1)]
         parts += [('transforms', (a,)) for a in ('x', 'y', 'z', 'xy', 'yz', 'xz', 'xyz')]
+        parts += [('transform_order', (cs,)) for cs in ORDER_CASES]
     run_parallel(ck, 'checks.c13', parts)
     ck.assumptions += ['taper generators are called with their documented preconditions assumed (n > 1, l/n >= max(2.5 r, min), '
                        'min <= max, l/n <= max); paths that end in AssertionError/Taper_Error are not a C13 matter (C20)',
@@ -654,7 +825,7 @@ def main(args):
                        'cos/sin of a symbolic angle: two reals with c^2+s^2=1; np.pi is the double the code uses']
     ck.stubs += ['np.linalg.norm -> abstract norm (3-D jobs)', 'np.cos/np.sin -> circle pair']
     ck.outside += ['tapers with more segments than listed (path count roughly triples per segment)',
-                   'the sort-key order of transformations in main and per-tag application (run under C05/C15)']
+                   'transformation sequences other than the listed option combinations (two or three rotate/translate options, one scale)']
     return ck.finish('Real taper generators, segmentation and curve constructors and transformation methods executed on symbolic '
                      'lengths/radii/limits/angles; every path gets tiling, bounds, growth, mirror, on-curve and orthogonality '
                      'assertions decided by z3 (nonlinear real / mixed integer arithmetic).')
